@@ -139,6 +139,8 @@ pub fn run(op: &str, v: &Value) -> Value {
     }
     let nvals_ok: Vec<bool> = naccs.iter().enumerate().map(|(i, a)| pt_is(&a.0, &exp["nvals"][i])).collect();
     let nm = NonMembershipWitness::new(y, &init, &key);
+    let mut nmsingle_ok = json!(null);
+    let mut nmsingle_verify = json!(null);
     let (nm_ok, nm_verify, nmmulti_ok, nmmulti_verify) = match nm {
         None => (json!(exp["nm"][0].as_str() == Some("none")), json!([]), json!(exp["nmmulti"].as_str() == Some("none")), json!(null)),
         Some(w0) => {
@@ -157,6 +159,20 @@ pub fn run(op: &str, v: &Value) -> Value {
                 })
                 .collect();
             let ver: Vec<bool> = ws.iter().enumerate().map(|(i, w)| w.verify(y, pk, if i == 0 { vn0 } else { naccs[i - 1] })).collect();
+            // single-step procedure, one call per epoch
+            let mut wsingle = vec![w0];
+            let mut prev = vn0;
+            for (i, p) in npubs.iter().enumerate() {
+                let w = wsingle.last().unwrap().update(y, prev, naccs[i], &p.0, &p.1);
+                wsingle.push(w);
+                prev = naccs[i];
+            }
+            let es: Vec<&str> = exp["nmsingle"].as_array().map(|a| a.iter().map(|x| x.as_str().unwrap_or("")).collect()).unwrap_or_default();
+            nmsingle_ok = json!(wsingle.iter().enumerate().map(|(i, w)| {
+                let parts: Vec<&str> = es.get(i).copied().unwrap_or("").split(':').collect();
+                parts.len() == 2 && pt_is(&w.c, &json!(parts[0])) && sc_from_hex(&json!(parts[1])) == Some(w.d)
+            }).collect::<Vec<bool>>());
+            nmsingle_verify = json!(wsingle.iter().enumerate().map(|(i, w)| w.verify(y, pk, if i == 0 { vn0 } else { naccs[i - 1] })).collect::<Vec<bool>>());
             let mut wm = w0;
             let wmm = wm.multi_batch_update(y, npubs.as_slice());
             let e = exp["nmmulti"].as_str().unwrap_or("");
@@ -174,5 +190,6 @@ pub fn run(op: &str, v: &Value) -> Value {
         "grouped_ok": pt_is(&g.0, &exp["grouped"]), "grouped_verify": g.verify(y, pk, last),
         "single_ok": single_ok, "single_verify": single_verify,
         "nvals_ok": nvals_ok, "nm_ok": nm_ok, "nm_verify": nm_verify, "nmmulti_ok": nmmulti_ok, "nmmulti_verify": nmmulti_verify,
+        "nmsingle_ok": nmsingle_ok, "nmsingle_verify": nmsingle_verify,
     })
 }
